@@ -576,6 +576,12 @@ theorem FlushPre.pfx {v : View} (h : FlushPre v) : DeadOK v := by
 theorem DrivePre.pfx {v : View} (h : DrivePre v) : DeadOK v := by
   obtain ⟨part, hl, ho, _⟩ := h; exact hl.pfx ho
 
+theorem Post.df_finishErr {w : World} (ctx : StepCtx) (n : String) (e : Err) (h : FlushPre w.view) :
+    Post ((w.discFail ctx).finishErr n e) := by
+  rcases discFail_cases w ctx with ⟨e1, _⟩ | ⟨e1, _⟩ <;> rw [e1]
+  · exact Post.live_finishErr _ _ h
+  · exact Post.hd_finishErr _ _ h.pfx
+
 theorem FlushPre.drive {v : View} (h : FlushPre v) : DrivePre v := by
   obtain ⟨part, hl, ho, ha⟩ := h
   exact ⟨part, hl, ho, fun h1 => by rw [ha] at h1; cases h1⟩
@@ -1283,7 +1289,7 @@ theorem wire_doStepWrite (fuel : Nat) (ih : MachineW fuel) :
   · rename_i w' heq
     have hv := ioWrite_view hpre.1.net heq
     simp only [] at hv
-    exact Post.live_finishErr _ _ (by rw [hv]; exact hpre.flushPre)
+    exact Post.df_finishErr _ _ _ (by rw [hv]; exact hpre.flushPre)
   · rename_i w' k heq
     have hv := ioWrite_view hpre.1.net heq
     simp only [] at hv
@@ -1319,18 +1325,18 @@ theorem wire_performStep (fuel : Nat) (ih : MachineW fuel) :
   have hio : φIO w ≤ fuel := by simp only [φPerf, φIO] at hfuel ⊢; omega
   simp only [performStep]
   split
-  · exact Post.live_finishErr _ _ h
+  · exact Post.df_finishErr _ _ _ h
   · rename_i hprep
     exact absurd (prepareStep_done w step hprep) (sf_nextStep_not_sent _ _ hn)
   · rename_i pkt hprep
     obtain ⟨hp1, hp2⟩ := prepareStep_flush w step hprep
     split
-    · exact Post.live_finishErr _ _ h
+    · exact Post.df_finishErr _ _ _ h
     · exact i4 _ _ _ _ hio ⟨step, h.flushing hn hp2, hp1⟩
   · rename_i pkt bytes written len hprep
     obtain ⟨q1, q2, q3, q4, q5, q6, q7⟩ := prepareStep_write w step hslot.1 hslot.2 hprep
     split
-    · exact Post.live_finishErr _ _ h
+    · exact Post.df_finishErr _ _ _ h
     · exact i3 _ _ _ _ _ _ _ hio ⟨step, h.writing hn q2 q3 q5 q6 (fits_of_not_tooLarge q7), q1, q4⟩
 
 theorem wire_flushLoop (fuel : Nat) (ih : MachineW fuel) :
@@ -1339,7 +1345,7 @@ theorem wire_flushLoop (fuel : Nat) (ih : MachineW fuel) :
   obtain ⟨_, i2, _, _, _, i6, _⟩ := ih
   simp only [flushLoop]
   split
-  · exact Post.live_finishErr _ _ h
+  · exact Post.df_finishErr _ _ _ h
   · rename_i w' heq
     obtain ⟨s', hq, rfl⟩ := maybeQueuePingreq_ok heq
     have h' : FlushPre ({ w with sess := s' } : World).view := h.queuePing hq
